@@ -26,6 +26,15 @@ check("C01",
       "TraceReduce.tla; a corrupted record must be rejected in every run.",
       TB, "TLA+ spec + TLC model checking + trace validation of recorded API calls (TraceReduce.tla)", "DESIGN.md section 5 C01")
 
+check("C02",
+      "TLC model-checks the whole map-reduce pipeline (block stage -> reindex -> combine tree -> finalize) of Aggs.tla, interpreted over the "
+      "blueprint table extracted from the LIVE registry, against the NumPy reference for every input, chunking, combine kind, reindex mode and "
+      "split_every in small scope (a counterexample is confirmed on real flox before it counts; a mutated table must be rejected); every Return of "
+      "real chunked calls over values x labels x ALL chunkings x method x reindex x numpy|dask labels is validated by TraceReduce.tla; and real "
+      "graphs are executed task by task by the harness scheduler with every flox task validated against Aggs!Sem by TraceGraph.tla.",
+      TB + " Kernels (numpy_groupies, numbagg, ufunc.reduceat) are primitives whose assumed semantics are checked on every replayed task.",
+      "TLA+ pipeline model on the live registry (TLC) + trace validation of API returns and of every task of real dask graphs", "DESIGN.md section 5 C02")
+
 ALL = [f"C{n:02d}" for n in range(1, 21)]
 
 def main():
